@@ -29,6 +29,14 @@ class ConePolicy:
         raise SymBranch('ordering comparison %s on symbolic shell attributes' % kind)
 
 
+def pin_linear(cc, k0):
+    """give a ConeCyl object placeholder linear matrices that count as belonging to its CURRENT definition (since fix fb734ae the
+    object drops stored matrices whose definition key differs; the routines that compute them are another property's subject)"""
+    cc.k0 = k0
+    if hasattr(cc, '_linear_definition'):
+        cc._linear_key = cc._linear_definition()
+
+
 class ConeCtx:
     def __init__(self, values=None, seed=0):
         import random
